@@ -386,6 +386,11 @@ pub fn gen_con(rng: &mut Rng, id: u64, ids: &[u64], max_degree: usize) -> ConSpe
         let tiny = *rng.pick(&[-24i32, -21, -20, -19]);
         let v = 2f64.powi(tiny) * if rng.chance(1, 3) { -1.0 } else { 1.0 };
         Some(if rng.chance(1, 2) { FuncSpec::Constant(F(v)) } else { FuncSpec::Linear { terms: vec![], constant: F(v) } })
+    } else if !ids.is_empty() && rng.chance(1, 8) {
+        // x - C with a large constant C: at x = C + 2^-18 the value is 3.8e-6 (does not hold), at C + 2^-21 it is
+        // 4.8e-7 (holds)
+        let x = ids[rng.usize(ids.len())];
+        Some(FuncSpec::Linear { terms: vec![(x, F(if rng.chance(1, 4) { -1.0 } else { 1.0 }))], constant: F(-BIG_CONST) })
     } else {
         Some(gen_func(rng, ids, max_degree))
     };
@@ -486,6 +491,8 @@ pub fn gen_instance(rng: &mut Rng, o: &GenOpts) -> InstSpec {
 }
 
 /// an in-bound value for a variable, a multiple of 1/2 in [-2, 2] (integers for integer kinds, 0/1 for binaries)
+pub const BIG_CONST: f64 = 131072.5;
+
 pub fn gen_value(rng: &mut Rng, v: &VarSpec) -> F {
     let (lo, hi) = match (v.bound, v.kind) {
         (Some((l, u)), _) => (l.0, u.0),
@@ -507,7 +514,43 @@ pub fn gen_value(rng: &mut Rng, v: &VarSpec) -> F {
 /// total in-bound assignment of the independent variables
 pub fn gen_state(rng: &mut Rng, inst: &InstSpec) -> Vec<(u64, F)> {
     let deps = inst.dep_ids();
-    inst.vars.iter().filter(|v| !deps.contains(&v.id) && v.substituted.is_none()).map(|v| (v.id, gen_value(rng, v))).collect()
+    // variables that occur in linear terms only (and in no dependency) may take a value of realistic magnitude, a
+    // hair beside the large constant of gen_con: the feasibility tolerance is absolute, whatever the size of the
+    // numbers involved (products of such values would leave the exact range of the reference arithmetic)
+    let mut nonlinear: std::collections::BTreeSet<u64> = Default::default();
+    let mut fs: Vec<&FuncSpec> = vec![];
+    fs.extend(inst.objective.iter());
+    fs.extend(inst.constraints.iter().filter_map(|c| c.function.as_ref()));
+    fs.extend(inst.removed.iter().filter_map(|r| r.constraint.as_ref()).filter_map(|c| c.function.as_ref()));
+    for f in fs {
+        {
+            let p = f.poly();
+            for (m, _) in p.0.iter() {
+                if m.len() >= 2 {
+                    nonlinear.extend(m.iter().copied());
+                }
+            }
+        }
+    }
+    for (_, f) in &inst.deps {
+        nonlinear.extend(f.poly().0.iter().flat_map(|(m, _)| m.iter().copied()));
+    }
+    inst.vars
+        .iter()
+        .filter(|v| !deps.contains(&v.id) && v.substituted.is_none())
+        .map(|v| {
+            let (lo, hi) = match (v.bound, v.kind) {
+                (Some((l, u)), _) => (l.0, u.0),
+                (None, 1) => (0.0, 1.0),
+                (None, _) => (f64::NEG_INFINITY, f64::INFINITY),
+            };
+            if v.kind == 3 && !nonlinear.contains(&v.id) && lo <= -BIG_CONST && hi >= BIG_CONST + 1.0 && rng.chance(1, 4) {
+                let off = *rng.pick(&[0.0, 2f64.powi(-18), 2f64.powi(-21), -2f64.powi(-18), 2f64.powi(-16)]);
+                return (v.id, F(BIG_CONST + off));
+            }
+            (v.id, gen_value(rng, v))
+        })
+        .collect()
 }
 
 pub fn assign_of(state: &[(u64, F)]) -> Assign {
